@@ -152,8 +152,8 @@ fn to_py(core: &Core, ind: usize) -> String {
         }
         Core::ExpressionType { expr, ty } => format!("{}: {}", to_py(expr, ind), to_py(ty, ind)),
         Core::DocStr { string } => format!("\"\"\"{string}\"\"\""),
-        Core::Str { string } => format!("\"{string}\""),
-        Core::FStr { string } => format!("f\"{string}\""),
+        Core::Str { string } => format!("\"{}\"", string.replace('\n', "\\n")),
+        Core::FStr { string } => format!("f\"{}\"", string.replace('\n', "\\n")),
         Core::Int { int } => int.clone(),
         Core::ENum { num, exp } => format!("({num} * 10 ** {exp})"),
         Core::Float { float } => float.clone(),
